@@ -296,6 +296,7 @@ pub fn run(_args: &[String]) {
 
 /// `vh clienttrace`: T threads share one connection, each runs a seeded random program; one record per run.
 pub fn run_trace(args: &[String]) {
+    std::panic::set_hook(Box::new(|_| {}));
     let runs: usize = args.iter().find_map(|a| a.strip_prefix("--runs=").and_then(|s| s.parse().ok())).unwrap_or(100);
     let max_threads: usize = args.iter().find_map(|a| a.strip_prefix("--threads=").and_then(|s| s.parse().ok())).unwrap_or(3);
     let outp = args.iter().find_map(|a| a.strip_prefix("--out=")).unwrap_or("/dev/stdout").to_string();
@@ -349,7 +350,8 @@ pub fn run_trace(args: &[String]) {
                     };
                     let o = &mut objs.iter_mut().find(|x| x.0 == c).unwrap().1;
                     let s0 = seq.fetch_add(1, Ordering::SeqCst);
-                    let res: Value = match (op, mode) {
+                    // a panic inside the library is data: it becomes the operation's (unexplainable) result
+                    let res: Value = std::panic::catch_unwind(std::panic::AssertUnwindSafe(|| match (op, mode) {
                         ("send", "oneway") => unit_res(&o.oneway()),
                         ("send", "more") => unit_res(&o.more().map(|_| ())),
                         ("send", _) => classify(&o.call(), c).0,
@@ -357,14 +359,14 @@ pub fn run_trace(args: &[String]) {
                             None => json!(["None"]),
                             Some(r) => classify(&r, c).0,
                         },
-                    };
+                    })).unwrap_or_else(|_| json!(["Panic"]));
                     let s1 = seq.fetch_add(1, Ordering::SeqCst);
                     ops.push(json!({"op": op, "c": c, "mode": mode, "script": script, "res": res, "start": s0, "end": s1}));
                 }
                 ops
             }));
         }
-        let threads: Vec<Vec<Value>> = hs.into_iter().map(|h| h.join().unwrap()).collect();
+        let threads: Vec<Vec<Value>> = hs.into_iter().map(|h| h.join().unwrap_or_else(|_| vec![json!({"op": "send", "c": 0, "mode": "call", "script": [], "res": ["Panic"], "start": 0, "end": 0})])).collect();
         total_ops += threads.iter().map(|t| t.len()).sum::<usize>();
         drop(conn);
         drop(_a);
